@@ -143,6 +143,16 @@ def work(ctx, tier):
             ents = list(rig.BREAKER_ENTRIES)
         else:
             ents = list(rig.ENTRIES)
+        if k % 5 == 2:
+            # a raising attempt hook or abort predicate at its i-th invocation.  How call() and execute() deliver such an error differs by
+            # design (execute() contains it as a failed attempt), so only entry points with the same delivery are compared: sync against
+            # async, Retry against Policy against RetryPolicy against the sugar
+            sc["place"]["hooks"] = rng.choice(["call", "policy", "both"])
+            sc["poll"] = True
+            sc["fault"] = {"kind": "cb", "cb": rng.choice(["astart", "aend", "aend", "abort_if"]), "at": rng.choice([0, 1, 1, 2, 3]), "exc": rng.choice(["RuntimeError", "ValueError", "KeyError"])}
+            ex = rng.random() < 0.5
+            ents = [e for e in ents if e.endswith("execute") == ex]
+            ctx.inc("scenarios_with_raising_attempt_hook_same_delivery")
         rng.shuffle(ents)
         ref = compare(ctx, sc, ents, stats)
         for ftr in features(sc):
@@ -163,6 +173,7 @@ def work(ctx, tier):
 
 def conclude(ctx):
     floors = {"pairs_compared": (ctx.cnt["pairs_compared"], 5000)}
+    floors["scenarios_with_raising_attempt_hook_same_delivery"] = (ctx.cnt["scenarios_with_raising_attempt_hook_same_delivery"], 100)
     for f in ("SS", "SA", "AS", "AA"):
         floors["pair_family:" + f] = (ctx.cnt["pair_family:" + f], 500)
     for f in ("cc", "cx", "xc", "xx"):
@@ -179,7 +190,8 @@ def conclude(ctx):
         nontrivial=len(ctx.sets["nontrivial"]),
         floors=floors,
         assumptions=common.ASSUME_COMMON + [
-            "classifier call counts and attempt hooks are not among the property's observables and are not projected",
+            "classifier call counts and attempt hooks are not among the property's observables and are not projected; a raising attempt hook / abort predicate is a callback behaviour and is injected, "
+            "but since call() propagates such an error and execute() contains it as a failed attempt (by design, cf. KF4) only entry points with the same delivery are compared under it",
             "call() raising the final scripted exception object is identified with the execute() outcome that carries it",
             "KF2 (final nested CircuitOpenError accounted differently by call() and execute()) is recognised only by that mechanism",
             "KF4 (a caller callback raising while a result-caused failure is handled: execute() treats it as an attempt failure, call() propagates it) is recognised only by that mechanism",
